@@ -227,7 +227,7 @@ structure PubSt where
   resets : Nat := 0
   contUp : List Bool := []         -- up continuously since the last reset
   seen : Nat := 0                  -- implementation's f= after the previous op
-  frec : List (Nat × Nat × Int × Nat) := []   -- fetch number, resets at that time, ttl of the fetching ping, ms slept since
+  frec : List (Nat × Nat × Int × Nat × Nat × Int) := []   -- fetch number, resets at that time, ttl of the fetching ping, ms slept since, its route generation, its protocol
 
 def backendKey (i : Nat) (proto : Int) (rg : Nat) : Key := ⟨[UInt8.ofNat i], proto, rg⟩
 
@@ -291,13 +291,13 @@ def parseLabel (op : String) (args : List String) : Option Label :=
   | "tick", [some d] => some (.tick 0 d)
   | _, _ => none
 
-def pubVerdict (p : PubSt) (cands : List Nat) (fb : Bool) (ttl : Int) (impl : String) : PubSt × String :=
+def pubVerdict (p : PubSt) (cands : List Nat) (fb : Bool) (ttl : Int) (rg : Nat) (proto : Int) (impl : String) : PubSt × String :=
   let (what, rest) := match impl.splitOn " | " with
     | [a, b] => (a, b)
     | _ => (impl, "")
   let f := ((rest.splitOn " ").findSome? fun kv => if kv.startsWith "f=" then (dropS kv 2).toNat? else none).getD p.seen
   -- fetches made during this op
-  let newRecs := (List.range (f - p.seen)).map fun j => (p.seen + j + 1, p.resets, ttl, 0)
+  let newRecs := (List.range (f - p.seen)).map fun j => (p.seen + j + 1, p.resets, ttl, 0, rg, proto)
   let p := { p with frec := p.frec ++ newRecs }
   let prevSeen := p.seen
   let p := { p with seen := f }
@@ -310,8 +310,9 @@ def pubVerdict (p : PubSt) (cands : List Nat) (fb : Bool) (ttl : Int) (impl : St
          if !cands.contains i then "viol:wrong-key"
          else match p.frec.find? (·.1 = n) with
            | none => "viol:unknown-result"
-           | some (_, ep, t, slept) =>
-             if ep < p.resets then "viol:stale-after-reset"
+           | some (_, ep, t, slept, frg, fproto) =>
+             if frg ≠ rg ∨ fproto ≠ proto then "viol:wrong-key"
+             else if ep < p.resets then "viol:stale-after-reset"
              else if n ≤ prevSeen ∧ t > 0 ∧ t.toNat ≤ slept then "viol:ttl-exceeded"
              else if (cands.takeWhile (· != i)).any upCont then "viol:not-first-backend"
              else "ok"
@@ -364,7 +365,7 @@ def dstep (d : DState) (c : Case) : DState × String × String :=
     (match ms.toNat? with
      | some n =>
        let p := d.pub
-       ({ d with sys := runLabels d.sys [.tick n n], pub := { p with frec := p.frec.map fun (a, b, t, sl) => (a, b, t, sl + n) } }, "ok", "-")
+       ({ d with sys := runLabels d.sys [.tick n n], pub := { p with frec := p.frec.map fun (a, b, t, sl, g, pr) => (a, b, t, sl + n, g, pr) } }, "ok", "-")
      | none => (d, "bad-case", "-"))
   | "ping", [rgs, ps, ts, fbs, cs] =>
     (match rgs.toNat?, ps.toInt?, ts.toInt?, (cs.splitOn ",").mapM String.toNat? with
@@ -374,7 +375,7 @@ def dstep (d : DState) (c : Case) : DState × String × String :=
        let out := (match res with
          | some (i, n) => s!"backend {i} {n}"
          | none => if fb then "fallback" else "error") ++ s!" | f={p.fetches}"
-       let (p, v) := pubVerdict p cands fb ttl c.impl
+       let (p, v) := pubVerdict p cands fb ttl rg proto c.impl
        ({ d with sys := s, pub := p }, out, v)
      | _, _, _, _ => (d, "bad-case", "-"))
   | op, args =>
